@@ -376,6 +376,28 @@ example : let h : Heap := { objs := [⟨1, true, [1]⟩, ⟨1, true, [2]⟩, ⟨
     assignOrd Order.shared h (Loc.root 0) (Loc.inObj 0 0) = assign true h (Loc.root 0) (Loc.inObj 0 0) ∧
     (assign true h (Loc.root 0) (Loc.inObj 0 0)).roots = [1] ∧ aliveAt (assign true h (Loc.root 0) (Loc.inObj 0 0)) 0 = false := by decide
 
+/-- **path_destination_keeps_its_container.**  The hypothesis of `smart_order_same_heap` holds for every destination a program can
+    name: if `dst` is what a path from a program variable resolves to, the object holding `dst` is still allocated after `*dst = *src`
+    (the cascade cannot free it: every object along the path is pinned by its predecessor, the first by the variable). -/
+theorem path_destination_keeps_its_container (h : Heap) (p : Path) (dst src : Loc) (hI : Inv h []) (hb : h.bad = false)
+    (hr : resolve h p = some dst) (hs : locLive h src = true) : containerAlive (assign true h dst src) dst = true :=
+  path_container_survives h p dst src hI hb hr hs
+
+/-- **all_orders_same_programs.**  Every program (assignments between places reached by paths, variables going out of scope) run in
+    Shared's or in SmartObject's statement order produces, step by step, exactly the heaps of the Array order — on every heap that
+    satisfies the invariant. -/
+theorem all_orders_same_programs (ord : Order) (h : Heap) (ops : List Op) (hI : Inv h []) (hb : h.bad = false) :
+    runOpsOrd ord h ops = runOps true h ops := runOpsOrd_eq ord ops h hI hb
+
+/-- **nested_programs_safe_every_order.**  …hence `nested_programs_safe` holds for all three handle families: on every heap the
+    harness can build, every program in any of the three orders keeps the invariant and never touches released storage. -/
+theorem nested_programs_safe_every_order (ord : Order) (descr : List (List Nat)) (roots : List Nat)
+    (hw : wfDescr descr roots = true) (ops : List Op) :
+    (runOpsOrd ord (build descr roots) ops).bad = false ∧ Inv (runOpsOrd ord (build descr roots) ops) [] := by
+  obtain ⟨a, b, _⟩ := AslProofs.RcNest.build_inv descr roots hw
+  rw [all_orders_same_programs ord _ ops a b]
+  exact AslProofs.RcNest.runOps_safe ops _ a b
+
 end Orders
 
 end C12
